@@ -116,7 +116,6 @@ def run(rep: vk.Report):
         if not V:
             continue
         S = ser.Ser()
-        C._compile_cached.cache_clear()
         try:
             tes = [S.expr(e) for e in es]
             rows = AD.compute_jacobian(es, V)
